@@ -48,3 +48,25 @@ structure RePattern where
   deriving DecidableEq, Repr
 
 end TrackVerif.Gen
+
+namespace TrackVerif.Gen
+
+/-- a Go type expression of `pkg/laptimer/types.go` -/
+inductive LtType
+  | basic (k : String)          -- int, int64, float64, string, bool, struct{}
+  | named (n : String)
+  | ptr (t : LtType)
+  | slice (t : LtType)
+  deriving DecidableEq, Repr, Inhabited
+
+/-- one struct field with its `xml:"…"` tag -/
+structure LtField where
+  goName : String
+  xmlName : String
+  attr : Bool
+  omitempty : Bool
+  embedded : Bool
+  typ : LtType
+  deriving DecidableEq, Repr
+
+end TrackVerif.Gen
